@@ -184,6 +184,17 @@ fn strat(tier: Tier) -> impl Strategy<Value = Case> {
 }
 
 pub fn run(ctx: &Ctx, rep: &Report) -> Meta {
+    // the same checks with all workers released from one barrier in a cold process (shared state under contention)
+    {
+        let cases = all_mask_cases(ctx.seed ^ 0xC0, 4).into_iter().chain(all_mask_cases(ctx.seed ^ 0xC1, 5).into_iter().rev().take(6)).collect::<Vec<_>>();
+        let r = contend("contention", ctx.workers.max(4), ctx.tier.pick(2, 6), |t, round| {
+            let c = &cases[(t * 7 + round * 3) % cases.len()];
+            check(rep, "contention", c)
+        });
+        if let Err(f) = r {
+            rep.add_violation(f);
+        }
+    }
     let am = all_mask_cases(ctx.seed, ctx.tier.pick(6, 10));
     par_items(ctx, rep, "all-masks", &am, |c| check(rep, "all-masks", c));
     let sweep: Vec<Case> = (7..=ctx.tier.pick(72usize, 200usize))
